@@ -14,530 +14,7 @@
     never underflows / casts a negative number ([ok = true]) and ends in the abstraction of the model's
     result.  The equations compose (loops by induction). *)
 
-From Coq Require Import Lia ZArith ZifyBool ZifyNat ZifyN.
-From Avt Require Import Oracles.Step Proofs.Inv Proofs.TermEasy Gen.TermFns Proofs.TermTie Proofs.InvStep.
-Ltac Zify.zify_post_hook ::= Z.div_mod_to_equations.
-Local Open Scope Z_scope.
-
-Definition ores {A} (r : res A) : option A := match r with Ok a => Some a | Panic _ => None end.
-
-Definition zzero : zt := {|
-  z_cols := 0; z_rows := 0; z_col := 0; z_row := 0; z_pend := false; z_top := 0; z_bot := 0;
-  z_org := false; z_nlm := false; z_acs := 0; z_cs0 := CsAscii; z_cs1 := CsAscii; z_ins := false;
-  z_awm := false; z_vis := false; z_ckm := false; z_ev := []
-|}.
-
-(** the non-scalar part of a terminal: the scalar fields are zeroed *)
-Definition wabs (t : term) : term := zput zzero t.
-
-(** the methods taken as one opaque step: the model's own functions on the recombined terminal *)
-Definition full_model (x : zfull) (t : term) : res term :=
-  match x with
-  | XSaveCursor => Ok (save_cursor t)
-  | XRestoreCursor => Ok (restore_cursor t)
-  | XSoftReset => Ok (soft_reset_gen t)
-  | XHardReset => Ok (hard_reset_gen t)
-  | XSwitchAlt => switch_to_alternate_buffer t
-  | XSwitchPrimary => switch_to_primary_buffer t
-  | XReflow => reflow t
-  | XSgr ops => Ok (sgr t ops)
-  | XXtwinops op => xtwinops t op
-  end.
-
-(** [zput] under a name that the normalisation tactic leaves folded *)
-Definition zput_opaque := zput.
-
-Definition Om : zops term := {|
-  op_ev := fun w e => ores (run_ev w e);
-  op_full := fun x s w =>
-    match full_model x (zput_opaque s w) with Ok t' => Some (zabs t', wabs t') | Panic _ => None end;
-  q_tabs_after := fun w c n =>
-    ores (o <- tabs_after (tabs w) (Z.to_nat c) (Z.to_nat n) ;; Ok (option_map Z.of_nat o));
-  q_tabs_before := fun w c n =>
-    ores (o <- tabs_before (tabs w) (Z.to_nat c) (Z.to_nat n) ;; Ok (option_map Z.of_nat o));
-  q_buf_char := fun w c r =>
-    ores (l <- get_row (buf w) (Z.to_nat r) ;;
-          match nth_error (cells l) (Z.to_nat c) with
-          | Some x => Ok (Z.of_N (ch x))
-          | None => Panic 72
-          end);
-  q_buf_cols := fun w => Z.of_nat (bcols (buf w));
-  q_translate := fun cs c => ores (c' <- translate cs (Z.to_N c) ;; Ok (Z.of_N c'));
-  op_buf_resize := fun w c r cc cr =>
-    ores ('(b, (x, y)) <- buf_resize (buf w) (Z.to_nat c) (Z.to_nat r) (Z.to_nat cc) (Z.to_nat cr) ;;
-          Ok (w <| buf := b |>, (Z.of_nat x, Z.of_nat y)));
-  q_sctx_col := fun w => Z.of_nat (sc_col (sctx w));
-  q_sctx_row := fun w => Z.of_nat (sc_row (sctx w));
-  q_sctx_org := fun w => sc_origin (sctx w);
-  q_sctx_awm := fun w => sc_awm (sctx w);
-  q_xtw := fun w => xtw w;
-  q_active := fun w => active w
-|}.
-
-Definition wres (r : res term) : option (zt * term * bool) :=
-  match r with Ok t' => Some (zabs t', wabs t', true) | Panic _ => None end.
-
-(** the scalar facts the side conditions need; preserved by every control function *)
-Definition ZW (t : term) : Prop := (1 <= cols t /\ 1 <= rows t /\ acs t <= 1)%nat.
-
-Lemma TInv_ZW t : TInv t -> ZW t.
-Proof. intros H. destruct H. repeat split; assumption. Qed.
-
-Lemma z2n_ofN n : Z.to_nat (Z.of_N n) = N.to_nat n.
-Proof. lia. Qed.
-
-(** normalise everything except arithmetic and the model's primitives (call-by-need) *)
-Ltac nrm_w :=
-  lazy -[Z.add Z.sub Z.opp Z.mul Z.leb Z.ltb Z.eqb Z.min Z.max Z.of_nat Z.of_N Z.to_nat Z.to_N Z.le Z.lt
-         N.eqb N.to_nat Nat.sub Nat.add Nat.min Nat.max Nat.leb Nat.ltb Nat.eqb Nat.lt andb orb negb
-         buf_scroll_up buf_scroll_down buf_print buf_insert buf_delete buf_erase buf_wrap
-         dirty_extend dirty_add tabs_set tabs_unset tabs_after tabs_before translate get_row nth_error
-         buf_resize dirty_resize buffer_new tabs_contract tabs_expand Z.compare Nat.compare
-         full_model zput_opaque wres zabs wabs].
-
-Ltac z2n_w :=
-  repeat first [ rewrite Nat2Z.id | rewrite N2Z.id | rewrite z2n_ofN | rewrite z2n_succ
-               | rewrite z2n_pred by lia
-               | progress change (Z.to_nat 1) with 1%nat | progress change (Z.to_nat 0) with 0%nat ].
-
-(** split on the result of a primitive call, innermost first *)
-Ltac brk_w :=
-  match goal with
-  | |- context [match ?m with Ok _ => _ | Panic _ => _ end] =>
-    lazymatch m with
-    | Ok _ => fail
-    | Panic _ => fail
-    | context [match _ with Ok _ => _ | Panic _ => _ end] => fail
-    | context [if _ then _ else _] => fail
-    | _ => destruct m eqn:?
-    end
-  | |- context [match ?m with Some _ => _ | None => _ end] =>
-    lazymatch m with
-    | Some _ => fail
-    | None => fail
-    | context [match _ with Ok _ => _ | Panic _ => _ end] => fail
-    | context [match _ with Some _ => _ | None => _ end] => fail
-    | context [if _ then _ else _] => fail
-    | _ => destruct m eqn:?
-    end
-  end.
-
-(** one split on an [if], innermost condition first *)
-Ltac brk1 :=
-  match goal with
-  | |- context [if ?b then _ else _] =>
-    lazymatch b with
-    | context [if _ then _ else _] => fail
-    | _ => destruct b eqn:?
-    end
-  end.
-
-(** make the two sides' calls of the same primitive syntactically equal when [lia] can equate the arguments *)
-Ltac same_calls :=
-  repeat match goal with
-         | |- context [match ?m1 with Ok _ => _ | Panic _ => _ end] =>
-           match goal with
-           | |- context [match ?m2 with Ok _ => _ | Panic _ => _ end] =>
-             tryif constr_eq m1 m2 then fail else
-               (let E := fresh in
-                assert (E : m2 = m1) by (f_equal; try reflexivity; try lia; f_equal; try reflexivity; lia);
-                rewrite E; clear E)
-           end
-         end.
-
-(** split on a three-way comparison *)
-Ltac brk_cmp :=
-  match goal with
-  | |- context [match (?a ?= ?b)%Z with Eq => _ | Lt => _ | Gt => _ end] => destruct (Z.compare_spec a b)
-  | |- context [match (?a ?= ?b)%nat with Eq => _ | Lt => _ | Gt => _ end] => destruct (Nat.compare_spec a b)
-  end.
-
-Ltac split_pairs :=
-  repeat match goal with
-         | p : (buffer * (nat * nat))%type |- _ => destruct p as [? [? ?]]
-         end.
-
-(** equality of records (possibly nested) whose fields differ by arithmetic *)
-Ltac flds := first [ reflexivity | lia | progress f_equal; flds ].
-
-Ltac w_fin :=
-  first [ reflexivity
-        | exfalso; lia
-        | f_equal; repeat (apply pair_equal_spec; split); flds ].
-
-Ltac w_loop :=
-  unfold wres, zabs, wabs; nrm_w; z2n_w;
-  repeat (first [ brk1 | brk_cmp | same_calls; brk_w ]; split_pairs; try (exfalso; lia); nrm_w; z2n_w);
-  w_fin.
-
-Ltac w_tie2 H :=
-  let a := fresh "Hcols" in let b := fresh "Hrows" in let c := fresh "Hacs" in
-  destruct H as (a & b & c);
-  cbn [Types.cols Types.rows Types.acs] in a, b, c;
-  w_loop.
-
-Ltac w_tie t H := destruct t; w_tie2 H.
-
-Lemma w_ich_eq t n : ZW t -> w_ich Om (zabs t) (wabs t) (Z.of_N n) = wres (ich t n).
-Proof. intros H. w_tie t H. Qed.
-
-Lemma w_dch_eq t n : ZW t -> w_dch Om (zabs t) (wabs t) (Z.of_N n) = wres (dch t n).
-Proof. intros H. w_tie t H. Qed.
-
-Lemma w_ech_eq t n : ZW t -> w_ech Om (zabs t) (wabs t) (Z.of_N n) = wres (ech t n).
-Proof. intros H. w_tie t H. Qed.
-
-Lemma w_ed_eq t sc : ZW t -> w_ed Om (zabs t) (wabs t) sc = wres (ed t sc).
-Proof. intros H. destruct sc; w_tie t H. Qed.
-
-Lemma w_el_eq t sc : ZW t -> w_el Om (zabs t) (wabs t) sc = wres (el t sc).
-Proof. intros H. destruct sc; w_tie t H. Qed.
-
-Lemma w_ctc_eq t op : ZW t -> w_ctc Om (zabs t) (wabs t) op = wres (Ok (ctc t op)).
-Proof. intros H. destruct op; w_tie t H. Qed.
-
-Lemma w_tbc_eq t sc : ZW t -> w_tbc Om (zabs t) (wabs t) sc = wres (Ok (tbc t sc)).
-Proof. intros H. destruct sc; w_tie t H. Qed.
-
-Lemma w_move_cursor_to_next_tab_eq t n : ZW t ->
-  w_move_cursor_to_next_tab Om (zabs t) (wabs t) (Z.of_nat n) = wres (move_cursor_to_next_tab t n).
-Proof. intros H. w_tie t H. Qed.
-
-Lemma w_move_cursor_to_prev_tab_eq t n : ZW t ->
-  w_move_cursor_to_prev_tab Om (zabs t) (wabs t) (Z.of_nat n) = wres (move_cursor_to_prev_tab t n).
-Proof. intros H. w_tie t H. Qed.
-
-Lemma w_ht_eq t : ZW t -> w_ht Om (zabs t) (wabs t) = wres (move_cursor_to_next_tab t 1).
-Proof. intros H. w_tie t H. Qed.
-
-Lemma w_cht_eq t n : ZW t ->
-  w_cht Om (zabs t) (wabs t) (Z.of_N n) = wres (move_cursor_to_next_tab t (as_usize n 1)).
-Proof. intros H. w_tie t H. Qed.
-
-Lemma w_cbt_eq t n : ZW t ->
-  w_cbt Om (zabs t) (wabs t) (Z.of_N n) = wres (move_cursor_to_prev_tab t (as_usize n 1)).
-Proof. intros H. w_tie t H. Qed.
-
-Lemma w_print_eq t c : ZW t -> w_print Om (zabs t) (wabs t) (Z.of_N c) = wres (print t c).
-Proof.
-  intros H. assert (Ha : (acs t <= 1)%nat) by apply H.
-  destruct t. cbn [Types.acs] in Ha. destruct acs as [|[|acs]]; [| |lia].
-  - w_tie2 H.
-  - w_tie2 H.
-Qed.
-
-(** * loops *)
-
-(** a W-mode loop whose body is tied to a model step is tied to the model's fold *)
-Lemma zfor_tie {B C : Type} (g : C -> B) (l : list C)
-      (body : B -> zt * term * bool -> option (zt * term * bool)) (step : term -> C -> res term)
-      (P : term -> Prop) :
-  (forall t x, P t -> body (g x) (zabs t, wabs t, true) = wres (step t x)) ->
-  (forall t x t', P t -> step t x = Ok t' -> P t') ->
-  forall t, P t -> zfor (map g l) body (zabs t, wabs t, true) = wres (foldM step l t).
-Proof.
-  intros Hb Hp. induction l as [|x l IH]; intros t Ht; cbn [map zfor foldM].
-  - reflexivity.
-  - rewrite Hb by exact Ht. unfold bind. destruct (step t x) as [t1|c] eqn:E; cbn [wres zb].
-    + apply IH. exact (Hp t x t1 Ht E).
-    + reflexivity.
-Qed.
-
-Lemma foldM_pure {A B} (f : A -> B -> A) l : forall a, foldM (fun a x => Ok (f a x)) l a = Ok (fold_left f l a).
-Proof. induction l as [|x l IH]; intros a; cbn [foldM fold_left]; [reflexivity|]. unfold bind. apply IH. Qed.
-
-Lemma zrange_0 k : zrange 0 (Z.of_nat k) = map (fun i => 0 + Z.of_nat i) (seq 0 k).
-Proof. unfold zrange. replace (Z.to_nat (Z.of_nat k - 0)) with k by lia. reflexivity. Qed.
-
-Lemma ZW_same t t' : cols t' = cols t -> rows t' = rows t -> acs t' = acs t -> ZW t -> ZW t'.
-Proof. unfold ZW. intros -> -> ->. exact (fun H => H). Qed.
-
-(** ** SM / RM *)
-Lemma w_sm_eq t ms : ZW t -> w_sm Om (zabs t) (wabs t) ms = wres (Ok (fold_left sm_one ms t)).
-Proof.
-  intros H. unfold w_sm. rewrite <- foldM_pure.
-  rewrite <- (map_id ms) at 1.
-  rewrite (zfor_tie (fun x => x) ms _ (fun t m => Ok (sm_one t m)) (fun _ => True)).
-  - destruct (foldM _ ms t); reflexivity.
-  - intros t0 m _. destruct t0, m; reflexivity.
-  - trivial.
-  - trivial.
-Qed.
-
-Lemma w_rm_eq t ms : ZW t -> w_rm Om (zabs t) (wabs t) ms = wres (Ok (fold_left rm_one ms t)).
-Proof.
-  intros H. unfold w_rm. rewrite <- foldM_pure.
-  rewrite <- (map_id ms) at 1.
-  rewrite (zfor_tie (fun x => x) ms _ (fun t m => Ok (rm_one t m)) (fun _ => True)).
-  - destruct (foldM _ ms t); reflexivity.
-  - intros t0 m _. destruct t0, m; reflexivity.
-  - trivial.
-  - trivial.
-Qed.
-
-(** ** REP *)
-Lemma print_n_foldM n : forall t c k, print_n n t c = foldM (fun t (_ : nat) => print t c) (seq k n) t.
-Proof.
-  induction n as [|n IH]; intros t c k; cbn [print_n seq foldM]; [reflexivity|].
-  unfold bind. destruct (print t c); [apply IH | reflexivity].
-Qed.
-
-Lemma g_as_usize_1 n : g_as_usize (Z.of_N n) 1 = (Z.of_nat (as_usize n 1), true).
-Proof. exact (g_as_usize_eq n 1). Qed.
-
-Lemma wabs_buf t : buf (wabs t) = buf t.
-Proof. destruct t; reflexivity. Qed.
-
-Lemma w_rep_eq t n : TInv t -> w_rep Om (zabs t) (wabs t) (Z.of_N n) = wres (rep t n).
-Proof.
-  intros H. unfold w_rep, rep. rewrite g_as_usize_1.
-  change (z_col (zabs t)) with (Z.of_nat (cur_col t)). change (z_row (zabs t)) with (Z.of_nat (cur_row t)).
-  cbn [fst snd].
-  destruct (Nat.ltb_spec 0 (cur_col t)) as [Hc|Hc];
-    destruct (Z.ltb_spec 0 (Z.of_nat (cur_col t))) as [Hc'|Hc']; try lia.
-  2: { destruct t; reflexivity. }
-  unfold q_buf_char at 1. cbn [Om]. rewrite wabs_buf.
-  replace (Z.to_nat (Z.of_nat (cur_row t))) with (cur_row t) by lia.
-  replace (Z.to_nat (Z.of_nat (cur_col t) - 1)) with (cur_col t - 1)%nat by lia.
-  unfold bind. destruct (get_row (buf t) (cur_row t)) as [l|e]; cbn [ores zb]; [|reflexivity].
-  destruct (nth_error (cells l) (cur_col t - 1)) as [x|]; cbn [ores zb]; [|reflexivity].
-  rewrite zrange_0.
-  replace (true && true && (1 <=? Z.of_nat (cur_col t))) with true by lia.
-  rewrite (zfor_tie (fun i => 0 + Z.of_nat i) (seq 0 (as_usize n 1)) _ (fun t (_ : nat) => print t (ch x)) TInv).
-  - rewrite <- print_n_foldM. destruct (print_n (as_usize n 1) t (ch x)); reflexivity.
-  - intros t0 i H0. rewrite (w_print_eq t0 (ch x) (TInv_ZW t0 H0)).
-    destruct (print t0 (ch x)); reflexivity.
-  - intros t0 i t1 H0 E. destruct (print_TInv t0 (ch x) H0) as (t2 & E2 & H2). congruence.
-  - exact H.
-Qed.
-
-(** ** DECALN *)
-Lemma on_buf_decaln_cols r n : forall t k,
-  foldM (fun t c => on_buf t (fun b => buf_print b c r (mkCell 69 default_pen))) (seq k n) t
-  = on_buf t (fun b => decaln_cols b r n k).
-Proof.
-  induction n as [|n IH]; intros t k; cbn [seq foldM decaln_cols].
-  - destruct t; reflexivity.
-  - unfold on_buf at 1 3. unfold bind.
-    destruct (buf_print (buf t) k r {| ch := 69; cpen := default_pen |}) as [b|e]; [|reflexivity].
-    rewrite IH. destruct t; reflexivity.
-Qed.
-
-Lemma decaln_rows_foldM n : forall t k,
-  decaln_rows t n k
-  = foldM (fun t r => t <- on_buf t (fun b => decaln_cols b r (cols t) 0) ;; mark t r) (seq k n) t.
-Proof.
-  induction n as [|n IH]; intros t k; cbn [decaln_rows seq foldM]; [reflexivity|].
-  unfold bind. destruct (on_buf t _) as [t1|e]; [|reflexivity].
-  destruct (mark t1 k) as [t2|e]; [apply IH | reflexivity].
-Qed.
-
-Lemma w_decaln_cell t c r :
-  zb (op_ev Om (wabs t) (EvBufPrint (0 + Z.of_nat c) (0 + Z.of_nat r) (ZCellChar 69)))
-     (fun w => Some (zabs t, w, true))
-  = wres (on_buf t (fun b => buf_print b c r (mkCell 69 default_pen))).
-Proof. destruct t. w_loop. Qed.
-
-Lemma w_decaln_mark t r :
-  zb (op_ev Om (wabs t) (EvDirtyAdd (0 + Z.of_nat r))) (fun w => Some (zabs t, w, true)) = wres (mark t r).
-Proof. destruct t. w_loop. Qed.
-
-Lemma w_decaln_eq t : ZW t -> w_decaln Om (zabs t) (wabs t) = wres (decaln t).
-Proof.
-  intros _. unfold w_decaln, decaln. cbn [fst snd].
-  change (z_rows (zabs t)) with (Z.of_nat (rows t)). rewrite zrange_0, decaln_rows_foldM.
-  rewrite (zfor_tie (fun i => 0 + Z.of_nat i) (seq 0 (rows t)) _
-             (fun t r => t <- on_buf t (fun b => decaln_cols b r (cols t) 0) ;; mark t r) (fun _ => True)).
-  - destruct (foldM _ (seq 0 (rows t)) t); reflexivity.
-  - intros t0 r _. change (z_cols (zabs t0)) with (Z.of_nat (cols t0)). rewrite zrange_0.
-    rewrite (zfor_tie (fun i => 0 + Z.of_nat i) (seq 0 (cols t0)) _
-               (fun t c => on_buf t (fun b => buf_print b c r (mkCell 69 default_pen))) (fun _ => True)).
-    + rewrite on_buf_decaln_cols. unfold bind.
-      destruct (on_buf t0 _) as [t1|e]; cbn [wres zb]; [|reflexivity]. apply w_decaln_mark.
-    + intros t1 c _. apply w_decaln_cell.
-    + trivial.
-    + trivial.
-  - trivial.
-  - trivial.
-Qed.
-
-(** * save / restore cursor, buffer switching, reflow *)
-Lemma w_save_cursor_eq t : ZW t -> w_save_cursor Om (zabs t) (wabs t) = wres (Ok (save_cursor t)).
-Proof. intros H. w_tie t H. Qed.
-
-Lemma w_restore_cursor_eq t : ZW t -> w_restore_cursor Om (zabs t) (wabs t) = wres (Ok (restore_cursor t)).
-Proof. intros H. w_tie t H. Qed.
-
-Lemma w_switch_to_alternate_buffer_eq t : ZW t ->
-  w_switch_to_alternate_buffer Om (zabs t) (wabs t) = wres (switch_to_alternate_buffer t).
-Proof. intros H. w_tie t H. Qed.
-
-Lemma w_switch_to_primary_buffer_eq t : ZW t ->
-  w_switch_to_primary_buffer Om (zabs t) (wabs t) = wres (switch_to_primary_buffer t).
-Proof. intros H. w_tie t H. Qed.
-
-Lemma w_reflow_eq t : ZW t -> w_reflow Om (zabs t) (wabs t) = wres (reflow t).
-Proof. intros H. w_tie t H. Qed.
-
-(** the scalar facts survive these steps *)
-Lemma ZW_save t : ZW t -> ZW (save_cursor t).
-Proof. destruct t. exact (fun H => H). Qed.
-Lemma ZW_restore t : ZW t -> ZW (restore_cursor t).
-Proof. destruct t. exact (fun H => H). Qed.
-Lemma ZW_switch_alt t t' : ZW t -> switch_to_alternate_buffer t = Ok t' -> ZW t'.
-Proof.
-  destruct t. unfold switch_to_alternate_buffer, mark_range, bind. destruct active; cbn.
-  - destruct (dirty_extend _ _ _); intros H E; [|discriminate]. injection E as <-. exact H.
-  - intros H E. injection E as <-. exact H.
-Qed.
-Lemma ZW_switch_pri t t' : ZW t -> switch_to_primary_buffer t = Ok t' -> ZW t'.
-Proof.
-  destruct t. unfold switch_to_primary_buffer, mark_range, bind. destruct active; cbn.
-  - intros H E. injection E as <-. exact H.
-  - destruct (dirty_extend _ _ _); intros H E; [|discriminate]. injection E as <-. exact H.
-Qed.
-
-(** * opaque steps, DECSET / DECRST *)
-Lemma zput_zabs_wabs t : zput (zabs t) (wabs t) = t.
-Proof. destruct t. unfold zput, zabs, wabs, zzero. nrm_w. z2n_w. reflexivity. Qed.
-
-Lemma op_full_eq x t :
-  op_full Om x (zabs t) (wabs t)
-  = match full_model x t with Ok t' => Some (zabs t', wabs t') | Panic _ => None end.
-Proof. cbn [op_full Om]. unfold zput_opaque. rewrite zput_zabs_wabs. reflexivity. Qed.
-
-Ltac full_steps :=
-  unfold bind;
-  repeat (rewrite op_full_eq; cbn [full_model];
-          try match goal with
-              | |- ?L = _ =>
-                match L with
-                | context [zb (match ?m with Ok _ => _ | Panic _ => _ end) _] =>
-                  lazymatch m with Ok _ => fail | _ => destruct m end
-                end
-              end;
-          cbn [zb]);
-  cbn [wres]; reflexivity.
-
-Lemma w_sc_eq t : ZW t -> w_sc Om (zabs t) (wabs t) = wres (Ok (save_cursor t)).
-Proof. intros H. unfold w_sc. rewrite w_save_cursor_eq by exact H. reflexivity. Qed.
-Lemma w_rc_eq t : ZW t -> w_rc Om (zabs t) (wabs t) = wres (Ok (restore_cursor t)).
-Proof. intros H. unfold w_rc. rewrite w_restore_cursor_eq by exact H. reflexivity. Qed.
-Lemma w_ris_eq t : w_ris Om (zabs t) (wabs t) = wres (Ok (hard_reset_gen t)).
-Proof. unfold w_ris. full_steps. Qed.
-Lemma w_decstr_eq t : w_decstr Om (zabs t) (wabs t) = wres (Ok (soft_reset_gen t)).
-Proof. unfold w_decstr. full_steps. Qed.
-
-Lemma step_TInv (one : term -> dec_mode -> res term) (mk : list dec_mode -> func) :
-  (forall t ms, execute t (mk ms) = foldM one ms t) ->
-  forall t m t', TInv t -> one t m = Ok t' -> TInv t'.
-Proof.
-  intros Hx t m t' H E. destruct (execute_ok t (mk [m]) H) as (t2 & E2 & H2).
-  rewrite Hx in E2. cbn [foldM] in E2. unfold bind in E2. rewrite E in E2. congruence.
-Qed.
-
-(** one composed step: rewrite with a tie equation, split on the model's result *)
-Ltac cstep L :=
-  rewrite L by eauto using ZW_save, ZW_restore, ZW_switch_alt, ZW_switch_pri; unfold bind; cbn [wres zb];
-  try match goal with
-      | |- ?L = _ =>
-        match L with
-        | context [match ?m with Ok _ => _ | Panic _ => _ end] =>
-          lazymatch m with Ok _ => fail | _ => destruct m eqn:? end
-        | context [wres ?m] =>
-          lazymatch m with Ok _ => fail | _ => destruct m eqn:? end
-        end
-      end;
-  cbn [wres zb]; try reflexivity.
-
-Lemma w_decset_eq t ms : TInv t -> w_decset Om (zabs t) (wabs t) ms = wres (foldM decset_one ms t).
-Proof.
-  intros HT. unfold w_decset. rewrite <- (map_id ms) at 1.
-  rewrite (zfor_tie (fun x => x) ms _ decset_one TInv).
-  - destruct (foldM decset_one ms t); reflexivity.
-  - intros t0 m H0. pose proof (TInv_ZW t0 H0) as H.
-    destruct m; cbn [decset_one].
-    1-4: w_tie t0 H.
-    + cstep w_switch_to_alternate_buffer_eq. cstep w_reflow_eq.
-    + cstep w_save_cursor_eq.
-    + cstep w_save_cursor_eq. cstep w_switch_to_alternate_buffer_eq. cstep w_reflow_eq.
-  - exact (step_TInv decset_one Decset (fun _ _ => eq_refl)).
-  - exact HT.
-Qed.
-
-Lemma w_decrst_eq t ms : TInv t -> w_decrst Om (zabs t) (wabs t) ms = wres (foldM decrst_one ms t).
-Proof.
-  intros HT. unfold w_decrst. rewrite <- (map_id ms) at 1.
-  rewrite (zfor_tie (fun x => x) ms _ decrst_one TInv).
-  - destruct (foldM decrst_one ms t); reflexivity.
-  - intros t0 m H0. pose proof (TInv_ZW t0 H0) as H.
-    destruct m; cbn [decrst_one].
-    1-4: w_tie t0 H.
-    + cstep w_switch_to_primary_buffer_eq. cstep w_reflow_eq.
-    + cstep w_restore_cursor_eq.
-    + cstep w_switch_to_primary_buffer_eq. cstep w_restore_cursor_eq. cstep w_reflow_eq.
-  - exact (step_TInv decrst_one Decrst (fun _ _ => eq_refl)).
-  - exact HT.
-Qed.
-
-(** * RESIZE (public) and XTWINOPS *)
-Definition wres_flag (r : res term) (b : bool) : option (zt * term * bool * bool) :=
-  match r with Ok t' => Some (zabs t', wabs t', true, b) | Panic _ => None end.
-
-(** as [nrm_w], but the reflow step stays folded on both sides *)
-Ltac nrm_c :=
-  lazy -[Z.add Z.sub Z.opp Z.mul Z.leb Z.ltb Z.eqb Z.min Z.max Z.of_nat Z.of_N Z.to_nat Z.to_N Z.le Z.lt
-         N.eqb N.to_nat Nat.sub Nat.add Nat.min Nat.max Nat.leb Nat.ltb Nat.eqb Nat.lt andb orb negb
-         buf_scroll_up buf_scroll_down buf_print buf_insert buf_delete buf_erase buf_wrap
-         dirty_extend dirty_add tabs_set tabs_unset tabs_after tabs_before translate get_row nth_error
-         buf_resize dirty_resize buffer_new tabs_contract tabs_expand Z.compare Nat.compare
-         full_model zput_opaque wres zabs wabs w_reflow reflow wres_flag].
-
-Lemma w_resize_eq t c r : ZW t -> (1 <= c)%nat -> (1 <= r)%nat ->
-  w_resize Om (zabs t) (wabs t) (Z.of_nat c) (Z.of_nat r)
-  = wres_flag (term_resize t c r) (negb ((c =? cols t)%nat && (r =? rows t)%nat)).
-Proof.
-  intros H Hc Hr. destruct t. destruct H as (Hcols & Hrows & Hacs).
-  cbn [Types.cols Types.rows Types.acs] in Hcols, Hrows, Hacs.
-  unfold w_resize, term_resize, zabs, wabs. nrm_c.
-  repeat (first [ brk1 | brk_cmp ]; try (exfalso; lia); nrm_c).
-  all: match goal with
-       | |- context [w_reflow ?O ?S ?W] =>
-         match goal with
-         | |- context [reflow ?T] =>
-           change (w_reflow O S W) with (w_reflow Om S W);
-           replace S with (zabs T) by (unfold zabs; nrm_w; z2n_w; flds);
-           replace W with (wabs T) by (unfold wabs; nrm_w; z2n_w; flds);
-           rewrite (w_reflow_eq T) by (unfold ZW; cbn [Types.cols Types.rows Types.acs]; lia)
-         end
-       end; unfold wres_flag; destruct (reflow _); cbn [wres]; nrm_c; flds.
-Qed.
-
-Lemma as_usize_pos n d : (1 <= d)%nat -> (1 <= as_usize n d)%nat.
-Proof. unfold as_usize, as_usize_gen. destruct (N.eqb_spec n 0); lia. Qed.
-
-Lemma w_xtwinops_eq t op : ZW t -> w_xtwinops Om (zabs t) (wabs t) op = wres (xtwinops t op).
-Proof.
-  intros H. unfold w_xtwinops, xtwinops.
-  replace (q_xtw Om (wabs t)) with (xtw t) by (destruct t; reflexivity).
-  destruct (xtw t); [|destruct t; reflexivity].
-  destruct op as [c r]. cbv beta iota zeta.
-  change (z_cols (zabs t)) with (Z.of_nat (cols t)). change (z_rows (zabs t)) with (Z.of_nat (rows t)).
-  rewrite !g_as_usize_eq. cbn [fst snd].
-  rewrite w_resize_eq by (first [ exact H | apply as_usize_pos, H ]).
-  unfold wres_flag. destruct (term_resize t _ _); reflexivity.
-Qed.
-
-(** the public resize operation of the Vt layer ([Vt::resize(c, r)]) *)
-Theorem tie_resize_op : forall v c r, ZW (vterm v) -> (1 <= c)%nat -> (1 <= r)%nat ->
-  match w_resize Om (zabs (vterm v)) (wabs (vterm v)) (Z.of_nat c) (Z.of_nat r) with
-  | Some (s, w, ok, _) => ok = true /\ stepM v (Resize c r) = vt_flush (v <| vterm := zput s w |>)
-  | None => exists e, stepM v (Resize c r) = Panic e
-  end.
-Proof.
-  intros v c r H Hc Hr. rewrite w_resize_eq by assumption. unfold wres_flag. cbn [stepM]. unfold bind.
-  destruct (term_resize (vterm v) c r) as [t'|e].
-  - split; [reflexivity|]. rewrite zput_zabs_wabs. reflexivity.
-  - exists e. reflexivity.
-Qed.
-Print Assumptions tie_resize_op.
+(* The proofs live in Proofs/TermTieW_Core.v (definitions, tactics, generic lemmas) and in independent leaf files
+   that compile in parallel; this file only re-exports them. *)
+From Avt Require Export Proofs.TermTieW_Core Proofs.TermTieW_Edit Proofs.TermTieW_Tabs Proofs.TermTieW_Print
+  Proofs.TermTieW_Switch Proofs.TermTieW_Reflow Proofs.TermTieW_Modes Proofs.TermTieW_ResizeGen Proofs.TermTieW_Resize.
